@@ -10,6 +10,7 @@ import (
 	"path/filepath"
 	"strconv"
 	"strings"
+	"time"
 	"testing"
 
 	rapp "github.com/Dash-Industry-Forum/livesim2/cmd/cmaf-ingest-receiver/app"
@@ -229,11 +230,16 @@ func (C08) Gen(rng *core.Rng, tier string, idx int) *core.Scenario {
 		case 7: // other endpoints
 			type ep struct{ m, t, body, what string }
 			pt := "2026-01-01T00:00:00Z"
+			ptNow := time.UnixMilli(now).UTC().Format("2006-01-02T15:04:05Z") // an instant at which segment n is available
 			eps := []ep{
 				{"GET", "/patch/livesim2/segtimeline_1/patch_60/" + ar.Asset + "/" + strings.Replace(ar.MPD, ".mpd", ".mpp", 1), "", "patch-no-publishtime"},
 				{"GET", "/patch/livesim2/segtimeline_1/patch_60/" + ar.Asset + "/" + strings.Replace(ar.MPD, ".mpd", ".mpp", 1) + "?publishTime=garbage", "", "patch-garbled-publishtime"},
 				{"GET", "/patch/livesim2/segtimeline_1/patch_60/" + ar.Asset + "/" + strings.Replace(ar.MPD, ".mpd", ".mpp", 1) + "?publishTime=" + pt + fmt.Sprintf("&nowMS=%d", now), "", "patch-old-publishtime"},
 				{"GET", "/patch/livesim2/" + ar.Asset + "/" + strings.Replace(ar.MPD, ".mpd", ".mpp", 1) + "?publishTime=" + pt, "", "patch-without-patch-param"},
+				{"GET", "/patch/livesim2/chunkdur_0.5/ato_1.5/" + ar.Asset + "/" + segName(core.Pick(rng, reps), n) + "?publishTime=" + ptNow + fmt.Sprintf("&nowMS=%d", now), "", "patch-media-segment"},
+				{"GET", "/patch/livesim2/" + ar.Asset + "/" + segName(core.Pick(rng, reps), n) + "?publishTime=" + ptNow + fmt.Sprintf("&nowMS=%d", now), "", "patch-media-segment"},
+				{"GET", "/patch/livesim2/" + ar.Asset + "/" + ar.MPD + "?publishTime=" + pt + fmt.Sprintf("&nowMS=%d", now), "", "patch-mpd-instead-of-mpp"},
+				{"GET", "/patch/assets?publishTime=" + pt, "", "patch-other-endpoint"},
 				{"GET", "/patch/", "", "patch-empty"}, {"GET", "/patch/livesim2/nosuch/x.mpp?publishTime=" + pt, "", "patch-unknown-asset"},
 				{"GET", "/urlgen/create?url=/livesim2/" + ar.Asset + "/" + ar.MPD, "", "urlgen-create"}, {"GET", "/urlgen/create", "", "urlgen-create-empty"},
 				{"GET", "/urlgen/create?url=%25zz&tsbd=abc&ato=inf&periods=0", "", "urlgen-create-garbage"}, {"GET", "/urlgen/mpds?asset=" + ar.Asset, "", "urlgen-mpds"},
